@@ -165,6 +165,17 @@ check("C07",
       "every query, including value types (JetSet int vs float) and the reference width in GeV.",
       "Trusts TLC, the renderer/projection of harness/c07.py, and the particle package for reference widths.",
       "DESIGN.md section 5, C07")
+check("C15",
+      "TLA+ specification of the emitted graph and of the process-wide node counter (spec/Viewer.tla), counter discipline "
+      "model-checked with TLC; DOT sources of real viewer sessions parsed back and validated by TLC (trace mode)",
+      "TLC checks that identifiers never repeat across the graphs of a session for the process-wide counter and refutes "
+      "per-graph numbering. Sessions of 3 viewers in one process are run on chain dictionaries from build_decay_chains (TLC table "
+      "universe and random table sets: up to 6 lines per particle, repeated decaying daughters, empty tables, lines without "
+      "daughters, real EvtGen names) and from DecayChain.to_dict(); each DOT source is parsed into a nested node structure and "
+      "TLC judges one root, one node + one edge per decay line, cells in order, edge label = that line's bf from the right "
+      "slot, nothing else, ids unique within and across graphs, and `dot -Tsvg` exit 0.",
+      "Trusts TLC, the DOT reader of harness/c15.py, Graphviz `dot`, and particle's EvtGen -> HTML name map for reading cells back.",
+      "DESIGN.md section 5, C15")
 check("C16",
       "TLA+ specification of print_decay_modes (spec/DecPrint.tla: Refused, Order, ValueKind) with TLC-checked sorting lemmas; "
       "TLC-enumerated (table, options) cases printed by the real code and the parsed output validated by TLC",
